@@ -911,7 +911,9 @@ def threads_check(prop, tier, seed):
     # plan: (readers, writers, commits per writer, reads, max preemptions, grow, preempt only at key points)
     if prop == "C04":
         # page reuse under parked readers: the file is pre-sized (a growing commit would wait for every reader)
-        plans = [(1, 2, 2, 2, 2, 0, False), (2, 1, 3, 1, 2, 0, False), (2, 1, 3, 1, 3, 0, True)] if tier == "quick" else \
+        # (2 readers, 4 commits: the younger reader spans a commit while the older one is still open, the older one goes
+        # away, one more writer begins -- the release bound then lies strictly inside the pending list)
+        plans = [(1, 2, 2, 2, 2, 0, False), (2, 1, 3, 1, 2, 0, False), (2, 1, 4, 1, 3, 0, True)] if tier == "quick" else \
                 [(1, 2, 2, 2, 3, 0, False), (2, 2, 2, 2, 2, 0, False), (2, 1, 4, 2, 3, 0, True), (1, 3, 1, 2, 2, 0, False),
                  (2, 1, 3, 1, 2, 1, False)]
         nrandom = 600 if tier == "quick" else 20000
